@@ -1,5 +1,11 @@
 /-
-C04 — model of the GRL parser `src/parser/grl.rs` (after the fixes F-C04a,c,d,e,g,h), on `List Char`.
+C04 — model of the GRL parser `src/parser/grl.rs` (after the fixes F-C04a,c,d,e,g,h and the string
+literal masking F-C04b), on `List Char`.
+
+Every entry point first runs `prepare` = `mask_string_literals ∘ strip_comments`: the body of every
+complete string literal is moved into a table (`lits`) and replaced by a metacharacter-free placeholder
+(`maskBodyAt`: `MASK_START index MASK_END`); the existing pipeline runs on the masked text; `unmask`
+restores the bodies at the leaves where text goes into the AST (`T` = the table).
 
 The parser is regex driven (crate `rexile`).  Its *algorithmic layers* are mirrored here:
 comment stripping / `clean_text`, the capture steps (rule split, header/body, `when … then …`),
@@ -103,6 +109,74 @@ def splitLines : Str → Str → List Str
 def cleanText (s : Str) : Str :=
   let ls := (splitLines s []).map trim |>.filter (fun l => !l.isEmpty && !startsWith l ['/', '/'])
   (ls.intersperse [' ']).flatten
+
+/-! ## string literal masking (`mask_string_literals`, `unmask`) -/
+
+/-- `MASK_START`, `MASK_END` -/
+def mStart : Char := Char.ofNat 1
+def mEnd : Char := Char.ofNat 2
+
+/-- `usize::to_string` -/
+def natDigits (n : Nat) : Str := (toString n).toList
+
+/-- the placeholder of the literal body with table index `n` (an empty body stays empty and has no entry) -/
+def maskBodyAt (n : Nat) (b : Str) : Str := if b.isEmpty then [] else mStart :: natDigits n ++ [mEnd]
+
+/-- the number of table entries a body takes -/
+def bodyCnt (b : Str) : Nat := if b.isEmpty then 0 else 1
+
+/-- `GRLParser::mask_string_literals`, the masked text: the state is `none` outside a literal and
+`some (q, buf)` after an opening quote `q` with `buf` read so far; `n` = the number of table entries so
+far; a literal closes at the same quote character on the same line, otherwise the text is kept as written -/
+def maskGo : Str → Option (Char × Str) → Nat → Str
+  | [], none, _ => []
+  | [], some (q, buf), _ => q :: buf
+  | c :: cs, none, n => if c == '"' || c == '\'' then maskGo cs (some (c, [])) n else c :: maskGo cs none n
+  | c :: cs, some (q, buf), n =>
+    if c == q then q :: maskBodyAt n buf ++ q :: maskGo cs none (n + bodyCnt buf)
+    else if c == '\n' then q :: buf ++ '\n' :: maskGo cs none n
+    else maskGo cs (some (q, buf ++ [c])) n
+
+/-- `GRLParser::mask_string_literals`, the table: the non-empty bodies of the complete literals, in order -/
+def litsGo : Str → Option (Char × Str) → List Str
+  | [], _ => []
+  | c :: cs, none => if c == '"' || c == '\'' then litsGo cs (some (c, [])) else litsGo cs none
+  | c :: cs, some (q, buf) =>
+    if c == q then (if buf.isEmpty then [] else [buf]) ++ litsGo cs none
+    else if c == '\n' then litsGo cs none
+    else litsGo cs (some (q, buf ++ [c]))
+
+def mask (s : Str) : Str := maskGo s none 0
+def lits (s : Str) : List Str := litsGo s none
+
+def digitsVal (s : Str) : Nat := s.foldl (fun n c => 10 * n + (c.toNat - '0'.toNat)) 0
+
+def stripPlus : Str → Str
+  | '+' :: r => r
+  | r => r
+
+/-- `str::parse::<usize>` (an index beyond the `usize` range is beyond the table as well) -/
+def parseUsize (s : Str) : Option Nat :=
+  if (stripPlus s).isEmpty || !(stripPlus s).all isDigit then none else some (digitsVal (stripPlus s))
+
+/-- the text between `MASK_START` and the next `MASK_END` as a table index: the body, and the rest after `MASK_END` -/
+def decodeRun (T : List Str) (after : Str) : Option (Str × Str) :=
+  match after.dropWhile (· != mEnd) with
+  | [] => none
+  | _ :: rest => ((parseUsize (after.takeWhile (· != mEnd))).bind (T[·]?)).map (·, rest)
+
+/-- `GRLParser::unmask` (every step consumes at least one character; the fuel is the length) -/
+def unmaskF (T : List Str) : Nat → Str → Str
+  | 0, s => s
+  | _ + 1, [] => []
+  | f + 1, c :: cs =>
+    if c == mStart then
+      match decodeRun T cs with
+      | some (body, rest) => body ++ unmaskF T f rest
+      | none => c :: unmaskF T f cs
+    else c :: unmaskF T f cs
+
+def unmask (T : List Str) (s : Str) : Str := unmaskF T s.length s
 
 /-! ## external functions (parameters of the model) -/
 
@@ -257,14 +331,14 @@ def parseWhen (A : Str → Except Err α) (s : Str) : Except Err (Cond α) := pa
 
 /-! ## `parse_value` -/
 
-def digitsVal (s : Str) : Nat := s.foldl (fun n c => 10 * n + (c.toNat - '0'.toNat)) 0
-
 /-- `str::parse::<i64>` / `<i32>`: optional sign, at least one digit, range check -/
+def signSplit : Str → Bool × Str
+  | '-' :: r => (true, r)
+  | '+' :: r => (false, r)
+  | r => (false, r)
+
 def parseIntIn (lo hi : Int) (s : Str) : Option Int :=
-  let (neg, ds) := match s with
-    | '-' :: r => (true, r)
-    | '+' :: r => (false, r)
-    | r => (false, r)
+  let (neg, ds) := signSplit s
   if ds.isEmpty || !ds.all isDigit then none
   else
     let v : Int := if neg then -(digitsVal ds : Int) else (digitsVal ds : Int)
@@ -295,10 +369,10 @@ def splitArray : Str → Str → Option Char → List Str
     if c == q then splitArray cs (cur ++ [c]) none else splitArray cs (cur ++ [c]) (some q)
 
 /-- the scalar part of `parse_value`'s classification chain (everything but arrays) -/
-def parseScalar (X : Ext) (t : Str) : Value :=
+def parseScalar (X : Ext) (T : List Str) (t : Str) : Value :=
   let inner := (t.drop 1).dropLast
   if t.length ≥ 2 && ((t.head? == some '"' && t.getLast? == some '"' && !inner.contains '"')
-      || (t.head? == some '\'' && t.getLast? == some '\'' && !inner.contains '\'')) then .str inner
+      || (t.head? == some '\'' && t.getLast? == some '\'' && !inner.contains '\'')) then .str (unmask T inner)
   else if lower t == "true".toList then .bool true
   else if lower t == "false".toList then .bool false
   else if lower t == "null".toList then .null
@@ -308,27 +382,26 @@ def parseScalar (X : Ext) (t : Str) : Value :=
       match X.parseF64 t with
       | some b => .num b
       | none =>
-        if isExpression t then .expr t
-        else if t.contains '.' then .expr t
-        else if isIdentifier t then .expr t
-        else .str t
+        if isExpression t then .expr (unmask T t)
+        else if t.contains '.' then .expr (unmask T t)
+        else if isIdentifier t then .expr (unmask T t)
+        else .str (unmask T t)
 
 /-- `parse_value` (fuel = nesting depth of array literals; elements are strictly shorter) -/
-def parseValueF (X : Ext) : Nat → Str → Value
-  | 0, s => parseScalar X (trim s)
+def parseValueF (X : Ext) (T : List Str) : Nat → Str → Value
+  | 0, s => parseScalar X T (trim s)
   | f + 1, s =>
     let t := trim s
     if t.head? == some '[' && t.getLast? == some ']' then
       let inner := trim (t.drop 1).dropLast
       if inner.isEmpty then .arr []
-      else .arr ((splitArray inner [] none).map (parseValueF X f))
-    else parseScalar X t
+      else .arr ((splitArray inner [] none).map (parseValueF X T f))
+    else parseScalar X T t
 
-def parseValue (X : Ext) (s : Str) : Value := parseValueF X s.length s
+def parseValue (X : Ext) (T : List Str) (s : Str) : Value := parseValueF X T s.length s
 
 /-! ## `Value::to_string` -/
 
-def natDigits (n : Nat) : Str := (toString n).toList
 def intShow (i : Int) : Str := (toString i).toList
 
 def valueShow (X : Ext) : Value → Str
@@ -410,15 +483,15 @@ def splitCommaGo : Str → Str → List Str
   | [], cur => [cur]
   | c :: cs, cur => if c == ',' then cur :: splitCommaGo cs [] else splitCommaGo cs (cur ++ [c])
 
-def splitArgs (s : Str) : List Str :=
-  if (trim s).isEmpty then [] else (splitCommaGo s []).map trim
+def splitArgs (T : List Str) (s : Str) : List Str :=
+  if (trim s).isEmpty then [] else (splitCommaGo s []).map fun a => unmask T (trim a)
 
 /-! ## `parse_single_condition` -/
 
 def bTrue : Value := .bool true
 
 /-- the anchored multi-field patterns 1,3–7 -/
-def matchMultifield (X : Ext) (c : Str) : Option (Except Err Condition) := do
+def matchMultifield (X : Ext) (T : List Str) (c : Str) : Option (Except Err Condition) := do
   let (field, r) ← takeDotted2 c
   -- every pattern continues with `\s+`
   if r.takeWhile isWs |>.isEmpty then none else
@@ -436,7 +509,7 @@ def matchMultifield (X : Ext) (c : Str) : Option (Except Err Condition) := do
       match matchOp false r1 with
       | some (_, o, r2) =>
         let v := trimStart r2
-        if v.isEmpty then none else some (.ok ⟨.multi field "count".toList none, o, parseValue X v⟩)
+        if v.isEmpty then none else some (.ok ⟨.multi field "count".toList none, o, parseValue X T v⟩)
       | none => none
     else if r == "first".toList then some (.ok ⟨.multi field "first".toList none, .eq, bTrue⟩)
     else if r == "last".toList then some (.ok ⟨.multi field "last".toList none, .eq, bTrue⟩)
@@ -456,7 +529,7 @@ def matchMultifield (X : Ext) (c : Str) : Option (Except Err Condition) := do
     else none
 
 /-- `^test\s*\(\s*([a-zA-Z_]\w*)\s*\(([^)]*)\)\s*\)$` -/
-def matchTest (c : Str) : Option Condition :=
+def matchTest (T : List Str) (c : Str) : Option Condition :=
   if !startsWith c "test".toList then none else
   match trimStart (c.drop 4) with
   | '(' :: r =>
@@ -467,7 +540,7 @@ def matchTest (c : Str) : Option Condition :=
         let args := r2.takeWhile (· != ')')
         match r2.dropWhile (· != ')') with
         | ')' :: r3 =>
-          if trimStart r3 == [')'] then some ⟨.test name (splitArgs args), .eq, bTrue⟩ else none
+          if trimStart r3 == [')'] then some ⟨.test name (splitArgs T args), .eq, bTrue⟩ else none
         | _ => none
       | _ => none
     | none => none
@@ -499,19 +572,19 @@ def matchCondAt (s : Str) : Option (Str × Str × Op × Str) := do
 def sFromStream : Str := "from stream(".toList
 
 /-- `parse_single_condition` -/
-def parseSingleCondition (X : Ext) (clause : Str) : Except Err Condition :=
+def parseSingleCondition (X : Ext) (T : List Str) (clause : Str) : Except Err Condition :=
   let t := trim clause
   let c := if t.head? == some '(' && t.getLast? == some ')' then trim (t.drop 1).dropLast else t
   if containsSub c sFromStream then .error .unmodelled else
-  match matchMultifield X c with
+  match matchMultifield X T c with
   | some r => r
   | none =>
-    match matchTest c with
+    match matchTest T c with
     | some r => .ok r
     | none =>
       -- typed_test_condition_regex starts with `\$`: never matches under `rexile`
       match searchFrom matchCallAt c with
-      | some (name, args, _, o, v) => .ok ⟨.call name (splitArgs args), o, parseValue X (trim v)⟩
+      | some (name, args, _, o, v) => .ok ⟨.call name (splitArgs T args), o, parseValue X T (trim v)⟩
       | none =>
         match searchFrom matchCondAt c with
         | none => .error .parse
@@ -519,8 +592,8 @@ def parseSingleCondition (X : Ext) (clause : Str) : Except Err Condition :=
           let left := trim left
           let v := trim v
           if left.any isArith then
-            .ok ⟨.test (left ++ [' '] ++ ot ++ [' '] ++ v) [], .eq, bTrue⟩
-          else .ok ⟨.field left, o, parseValue X v⟩
+            .ok ⟨.test (left ++ [' '] ++ ot ++ [' '] ++ unmask T v) [], .eq, bTrue⟩
+          else .ok ⟨.field left, o, parseValue X T v⟩
 
 /-! ## `parse_then_clause`, `parse_action_statement` -/
 
@@ -548,47 +621,54 @@ def indexed (vs : List Value) : List (Str × Value) :=
 
 def stripDollar (s : Str) : Str := match s with | '$' :: r => r | r => r
 
+/-- `str::trim_matches('"')` -/
+def trimQuotes (s : Str) : Str := ((s.dropWhile (· == '"')).reverse.dropWhile (· == '"')).reverse
+
 def asName (X : Ext) (v : Value) : Str := match v with | .str s => s | v => valueShow X v
 
 /-- `parse_action_statement` -/
-def parseAction (X : Ext) (statement : Str) : Except Err Action :=
+def parseAction (X : Ext) (T : List Str) (statement : Str) : Except Err Action :=
   let t := trim statement
   -- method_call_regex starts with `\$`: never matches under `rexile`
   match findSub ['+', '='] t with
-  | some p => .ok (.append (trim (t.take p)) (parseValue X (trim (t.drop (p + 2)))))
+  | some p => .ok (.append (unmask T (trim (t.take p))) (parseValue X T (trim (t.drop (p + 2)))))
   | none =>
     match findSub ['='] t with
-    | some p => .ok (.set (trim (t.take p)) (parseValue X (trim (t.drop (p + 1)))))
+    | some p => .ok (.set (unmask T (trim (t.take p))) (parseValue X T (trim (t.drop (p + 1)))))
     | none =>
       match searchFrom matchBindingAt t with
-      | none => .ok (.custom "statement".toList [("statement".toList, .str t)])
+      | none => .ok (.custom "statement".toList [("statement".toList, .str (unmask T t))])
       | some (name, args) =>
         let ln := lower name
-        if ln == "retract".toList then .ok (.retract (stripDollar args))
+        if ln == "retract".toList then .ok (.retract (unmask T (stripDollar args)))
         else if ln == "log".toList then
-          .ok (.log (if args.isEmpty then "Log message".toList else valueShow X (parseValue X args)))
+          .ok (.log (if args.isEmpty then "Log message".toList else valueShow X (parseValue X T args)))
         else if ln == "activateagendagroup".toList || ln == "activate_agenda_group".toList then
-          if args.isEmpty then .error .parse else .ok (.activate (asName X (parseValue X args)))
+          if args.isEmpty then .error .parse else .ok (.activate (asName X (parseValue X T args)))
         else if ln == "schedulerule".toList || ln == "schedule_rule".toList then
           match splitCommaGo args [] with
           | [a, b] =>
-            let name := asName X (parseValue X (trim b))
-            match parseValue X (trim a) with
+            let name := asName X (parseValue X T (trim b))
+            match parseValue X T (trim a) with
             | .int i => .ok (.schedule name (i % 18446744073709551616).toNat)
             | .num f => .ok (.schedule name (X.f64ToU64 f))
             | _ => .error .parse
           | _ => .error .parse
         else if ln == "completeworkflow".toList || ln == "complete_workflow".toList then
-          if args.isEmpty then .error .parse else .ok (.complete (asName X (parseValue X args)))
+          if args.isEmpty then .error .parse else .ok (.complete (asName X (parseValue X T args)))
         else if ln == "setworkflowdata".toList || ln == "set_workflow_data".toList then
-          .error .parse     -- needs `=` in the argument, which the assignment branch above has already taken
+          -- reachable since the masking: the `=` of `SetWorkflowData("key=value")` is inside a literal
+          let data := unmask T (trim args)
+          match findSub ['='] data with
+          | none => .error .parse
+          | some p => .ok (.wfdata (trimQuotes (trim (data.take p))) (parseValue X T (trim (data.drop (p + 1)))))
         else
-          .ok (.custom name (if args.isEmpty then [] else indexed ((splitCommaGo args []).map fun a => parseValue X (trim a))))
+          .ok (.custom name (if args.isEmpty then [] else indexed ((splitCommaGo args []).map fun a => parseValue X T (trim a))))
 
 /-- `parse_then_clause`, parametric in the statement parser -/
 def parseThenWith (P : Str → Except Err β) (s : Str) : Except Err (List β) := (statements s).mapM P
 
-def parseThen (X : Ext) (s : Str) : Except Err (List Action) := parseThenWith (parseAction X) s
+def parseThen (X : Ext) (T : List Str) (s : Str) : Except Err (List Action) := parseThenWith (parseAction X T) s
 
 /-! ## header, body, attributes -/
 
@@ -723,7 +803,7 @@ def matchQuotedAttrAt (kw : Str) (s : Str) : Option Str :=
     | _ => none
   | _ => none
 
-def quotedAttr (kw : String) (header : Str) : Option Str := searchFrom (matchQuotedAttrAt kw.toList) header
+def quotedAttr (T : List Str) (kw : String) (header : Str) : Option Str := (searchFrom (matchQuotedAttrAt kw.toList) header).map (unmask T)
 
 def attrKeywords : List Str :=
   ["salience", "no-loop", "lock-on-active", "agenda-group", "activation-group", "date-effective", "date-expires"].map String.toList
@@ -756,19 +836,19 @@ def parseDateOpt (X : Ext) (o : Option Str) : Except Err (Option Int) :=
     | none => .error .parse
 
 /-- `parse_rule_attributes` -/
-def parseAttrs (X : Ext) (header : Str) : Except Err Attrs := do
+def parseAttrs (X : Ext) (T : List Str) (header : Str) : Except Err Attrs := do
   let sec := boolAttrSection header
-  let de ← parseDateOpt X (quotedAttr "date-effective" header)
-  let dx ← parseDateOpt X (quotedAttr "date-expires" header)
+  let de ← parseDateOpt X (quotedAttr T "date-effective" header)
+  let dx ← parseDateOpt X (quotedAttr T "date-expires" header)
   pure { noLoop := hasWord "no-loop".toList sec, lockOnActive := hasWord "lock-on-active".toList sec,
-         agendaGroup := quotedAttr "agenda-group" header, activationGroup := quotedAttr "activation-group" header,
+         agendaGroup := quotedAttr T "agenda-group" header, activationGroup := quotedAttr T "activation-group" header,
          dateEffective := de, dateExpires := dx }
 
 /-! ## entry points -/
 
-/-- `parse_single_rule` (= `GRLParser::parse_rule`) -/
-def parseSingleRule (X : Ext) (text : Str) : Except Err Rule := do
-  let cleaned := cleanText (stripComments text none)
+/-- `parse_prepared_rule`: one rule from prepared text (`T` = the literal table) -/
+def parsePreparedRule (X : Ext) (T : List Str) (text : Str) : Except Err Rule := do
+  let cleaned := cleanText text
   match searchFrom matchRuleAt cleaned with
   | none => .error .parse
   | some (name, attrs, body) =>
@@ -776,16 +856,26 @@ def parseSingleRule (X : Ext) (text : Str) : Except Err Rule := do
     match searchFrom matchWhenAt body with
     | none => .error .parse
     | some (w, th) =>
-      let cond ← parseWhen (parseSingleCondition X) (trim w)
-      let acts ← parseThen X (trim th)
-      let ats ← parseAttrs X attrs
-      pure { name := name, salience := sal, noLoop := ats.noLoop, lockOnActive := ats.lockOnActive,
+      let cond ← parseWhen (parseSingleCondition X T) (trim w)
+      let acts ← parseThen X T (trim th)
+      let ats ← parseAttrs X T attrs
+      pure { name := unmask T name, salience := sal, noLoop := ats.noLoop, lockOnActive := ats.lockOnActive,
              agendaGroup := ats.agendaGroup, activationGroup := ats.activationGroup,
              dateEffective := ats.dateEffective, dateExpires := ats.dateExpires, cond := cond, actions := acts }
 
+/-- `GRLParser::prepare`: the masked text (the table is `lits` of the same text) -/
+def prepare (s : Str) : Str := mask (stripComments s none)
+def prepareLits (s : Str) : List Str := lits (stripComments s none)
+
+/-- `parse_single_rule` (= `GRLParser::parse_rule`) -/
+def parseSingleRule (X : Ext) (text : Str) : Except Err Rule := parsePreparedRule X (prepareLits text) (prepare text)
+
+/-- `parse_prepared_rules` -/
+def parsePreparedRules (X : Ext) (T : List Str) (text : Str) : Except Err (List Rule) :=
+  (splitRules text).mapM (parsePreparedRule X T)
+
 /-- `parse_multiple_rules` (= `GRLParser::parse_rules`) -/
-def parseRules (X : Ext) (text : Str) : Except Err (List Rule) :=
-  (splitRules (stripComments text none)).mapM (parseSingleRule X)
+def parseRules (X : Ext) (text : Str) : Except Err (List Rule) := parsePreparedRules X (prepareLits text) (prepare text)
 
 def sDefmodule : Str := "defmodule".toList
 
@@ -819,6 +909,7 @@ def removeDefmodulesF : Nat → Str → Str
 
 /-- the rules returned by `GRLParser::parse_with_modules` -/
 def parseWithModules (X : Ext) (text : Str) : Except Err (List Rule) :=
-  parseRules X (removeDefmodulesF (text.length + 1) text)
+  let t := prepare text
+  parsePreparedRules X (prepareLits text) (removeDefmodulesF (t.length + 1) t)
 
 end C04
